@@ -98,6 +98,8 @@ func factsC06(r *Repo) []Fact {
 	} else {
 		out = append(out, boolFact("storeOnlyTopLevelWithID", okAll, "compose/graph_run.go: handleInterrupt, handleInterruptWithSubGraphAndRerunNodes: `if isSubGraph {return …} else if checkPointID != nil { r.checkPointer.set(…) }`"))
 	}
+	// --- the error of the checkpoint write reaches the handler's return (c06_fault.go) ---
+	out = append(out, c06FaultFacts(cp)...)
 	// --- the interrupt error carries the info: handlers return &interruptError{Info: intInfo}; ExtractInterruptInfo uses errors.As ---
 	ex, exFile := cp.Func("", "ExtractInterruptInfo")
 	if ex == nil {
